@@ -583,6 +583,38 @@ def c06_worker(job):
             planted = len(extra)
             case.meta['records'] = recs
         out['stats']['planted_i_to_l_records'] = planted
+        if rng.random() < 0.6:
+            # two alternative-splicing Insertion / Substitution records with the SAME anchor and the
+            # SAME id but different donor segments (a tool that names events by their anchor): both
+            # must be called whatever file holds which and in whatever order the files are given
+            import copy as _copy
+            import random as _r
+            from moPepGen import fake as _fake
+            with gen_ref.quiet():
+                genome, anno, _ = gen_ref.load_reference(case)
+            cands = [r for r in recs if r.__class__ is not CircRNAModel
+                     and r.type in ('Insertion', 'Substitution') and 'DONOR_START' in r.attrs]
+            if not cands:
+                multi_exon = [t for t, m in anno.transcripts.items() if len(m.exon) >= 3]
+                _r.seed(rng.randrange(1 << 30))
+                for t in rng.sample(multi_exon, len(multi_exon)):
+                    try:
+                        rec = _fake.fake_intron_insertion(anno, genome, t, 'RI')
+                    except Exception:   # noqa
+                        continue
+                    recs = recs + [rec]
+                    cands = [rec]
+                    break
+            if cands:
+                a0 = rng.choice(cands)
+                ds, de = int(a0.attrs['DONOR_START']), int(a0.attrs['DONOR_END'])
+                k = rng.randint(1, 5)
+                if de - ds > 3 * k + 3:
+                    twin = _copy.deepcopy(a0)
+                    twin.attrs['DONOR_END'] = de - 3 * k
+                    recs = recs + [twin]
+                    case.meta['records'] = recs
+                    out['stats']['same_id_same_anchor_as_twins'] = 1
         nvar = len([r for r in recs if r.__class__ is not CircRNAModel])
         with gen_ref.quiet():
             gvfs0 = list(gen_ref.write_gvfs(case, recs))
